@@ -43,6 +43,8 @@ func init() {
 			{ID: "C13.R22", Text: "rollback-mitigation polling is stopped: the stop handshake with the observe loop runs exactly when a loop exists (same rule as C07.R17)", Run: mitigationStopHandshake},
 			{ID: "C13.R23", Text: "the client's start and close paths call by call: the stream is opened, the listener subscribed (failure fatal), each optional component started and stopped under exactly its configuration switch (polarity included), Commit is Stream.Save, SetMetadata installs the supplied store, newDcp applies the defaults first and returns every error", Run: clientWiring},
 			{ID: "C13.R24", Text: "Close() returns from every lifecycle state, also when called from the listener: it only signals — no WaitGroup wait, receive, lock, sleep or blocking select in Close or what it calls", Run: closeOnlySignals},
+			{ID: "C13.R25", Text: "stopping the election does not pull the registry from under the heart-beat loop: leaderElection.Stop makes no call on the service discovery (exhaustive)", Run: leaderStopLeavesRegistry},
+			{ID: "C13.R26", Text: "a stopped mitigation stays stopped: the observe ticker field is assigned only where the loop is started (never cleared: reconfigure and Stop read it to know whether a loop runs)", Run: fieldWriters("couchbase", "rollbackMitigation", "observeTimer", "a cleared ticker makes a late cluster-map change start a new observe loop on a stopped mitigation", "rollbackMitigation).startObserve")},
 			{ID: "C13.R9", Text: "background waits are cancellable: the health checker blocks only in selects with a ctx.Done() case (same rule as C19.R2)", Run: c19r2},
 			{ID: "C13.R10", Text: "a cancel signal closes with closeWithCancel=true: the flag is raised in the branch of the wait that received the signal, before the close path runs, and is what Stream.Close receives", Run: c13r10},
 			{ID: "C13.R8", Text: "closeAllStreams closes every assigned vBucket: the serial branch iterates vbIDRange.Start..End inclusive, the parallel branch ranges over every tracked position", Run: closeAllRange},
